@@ -138,6 +138,9 @@ def get_detector_error_model(
         if instruction.name == "OBSERVABLE_INCLUDE":
             assert len(instruction.gate_args_copy()) == 1
             idx = int(instruction.gate_args_copy()[0])
+            for t in instruction.targets_copy():
+                if not t.is_measurement_record_target:
+                    raise ValueError(f"Unsupported OBSERVABLE_INCLUDE target: {t}")
             target_vals = [t.value for t in instruction.targets_copy()]
             obs[idx].extend(target_vals)
         else:
